@@ -32,8 +32,11 @@ TAGS = [None, "python", "json", "oct"]
 class Spelling:
     """Lenient choices; `canonical=True` makes every choice the canonical one."""
 
-    def __init__(self, rng: random.Random, canonical: bool = False, p: float = 0.5, only: set | None = None):
+    def __init__(self, rng: random.Random, canonical: bool = False, p: float = 0.5, only: set | None = None, envelope: bool = False):
         self.rng, self.canonical, self.p, self.only = rng, canonical, p, only
+        # may the envelope line of a document named INFERRED be left out?  A reader feature (C01/C02 exercise it); the tools treat
+        # text without an envelope as plain text to wrap, so tool-level checks and C03's freedoms do not use it
+        self.envelope = envelope
 
     def flip(self, kind: str) -> bool:
         if self.canonical or (self.only is not None and kind not in self.only):
@@ -466,7 +469,7 @@ def render(d: dict, sp: Spelling):
         w.w("OCTAVE::" + d["gv"])
         _eol(w, sp)
     # a document named INFERRED may be written without its envelope line (the reader infers exactly that name)
-    if not (d["name"] == "INFERRED" and not d["gv"] and sp.flip("envelope")):
+    if not (d["name"] == "INFERRED" and not d["gv"] and sp.envelope and sp.flip("envelope")):
         w.w("===" + d["name"] + "===")
         _eol(w, sp)
     if d["meta"]:
